@@ -85,12 +85,14 @@ StdApply(st0, g, op, a, b) ==
     [] op = "GetMut" ->
          [st EXCEPT !.ret = IF st.strong[a] = 1 /\ st.weak[a] = 1 THEN "some" ELSE "none"]
     \* make_mut on a handle to a; b is the id of the allocation the handle points to afterwards
-    [] op = "MakeMut" ->
+    [] op \in {"MakeMut", "MakeMutS"} ->
          IF st.strong[a] # 1
          THEN \* other strong handles: clone the value into a fresh allocation b
-              LET s1 == [st EXCEPT !.alive[b] = TRUE, !.strong[b] = 1, !.weak[b] = 1, !.mem[b] = "alloc",
-                                   !.strong = [t \in SObj |-> IF t = b THEN 1 ELSE @[t] + g.valS[a][t]],
-                                   !.weak   = [t \in SObj |-> IF t = b THEN 1 ELSE @[t] + g.valW[a][t]]]
+              \* (MakeMutS: the payload's Clone does not re-share the stored handles)
+              LET k  == IF op = "MakeMut" THEN 1 ELSE 0
+                  s1 == [st EXCEPT !.alive[b] = TRUE, !.strong[b] = 1, !.weak[b] = 1, !.mem[b] = "alloc",
+                                   !.strong = [t \in SObj |-> IF t = b THEN 1 ELSE @[t] + k * g.valS[a][t]],
+                                   !.weak   = [t \in SObj |-> IF t = b THEN 1 ELSE @[t] + k * g.valW[a][t]]]
               IN [s1 EXCEPT !.strong[a] = @ - 1, !.ret = "cloned"]
          ELSE IF st.weak[a] # 1
          THEN \* only Weak handles besides us: move the value into a fresh allocation b
